@@ -1,6 +1,103 @@
 (** C01 -- the collector relays each configured target's state to subscribers
-    faithfully.  Only theorem statements closed by [exact]. *)
-From Gnmi Require Import Base.Prelude CTree.CTreeModel Pipeline.PipelineModel Pipeline.PipelineProofs.
+    faithfully, end to end.  This file holds only the property theorems, each
+    closed by [exact] of a lemma proved in Pipeline/PipelineProofs.v, with
+    [Print Assumptions] beneath.
+
+    Vocabulary (Pipeline/PipelineModel.v): [pipeline cfg ss q sched] is what a
+    client subscribed with [q] (STREAM) holds at quiescence when the collector
+    runs configuration [cfg], every target [n] streams [ss n], and stream
+    arrivals, sender steps and the subscription happen in the order [sched]
+    (any list of actions; whatever is still in flight afterwards is delivered).
+    [replay s] is the target's own final state under gNMI semantics (deletes
+    before updates in a notification), [stamp_paths name] presents it under
+    the configured target name with client-decoded values, [selects Q] keeps
+    the leaves below the subscription path.
+
+    Full statement of relay_faithful (not proved in this form):
+
+      forall cfg ss q sched name s,
+        validate cfg = true -> In name (keys (cf_targets cfg)) -> assoc name ss = Some s ->
+        g_target (cq_prefix q) = name ->
+        ts_increasing None s = true ->
+        prefix_free_from [] s = true ->        (* no stored path is a proper prefix of another AT ANY TIME *)
+        decodable s = true -> ... (no `*`/meta, query glob-free and above the leaves,
+                                   no origin in a path, no -0, one path encoding) ->
+        exists l, pipeline cfg ss q sched = VLeaves l /\
+                  Permutation l (selects (sub_query q) (stamp_paths name (replay s))).
+
+    [C01_relay_faithful_partial] proves exactly this conclusion, for every
+    configuration, every other target's stream and every schedule, under the
+    stronger hypothesis that the stream conforms to a *schema* [Keys] no member
+    of which is a proper prefix of another (prefix-freeness over the whole
+    history instead of at each instant) and a value set [Vals] of decodable
+    values on which value.Equal implies equal decoding. *)
+From Gnmi Require Import Base.Prelude CTree.CTreeModel Pipeline.PipelineModel Pipeline.PipelineCheck
+  Pipeline.PipelineProofs.
+
+(** relay_faithful, all configurations / other targets / schedules; schema-prefix-free streams *)
+Theorem C01_relay_faithful_partial :
+  forall (name : string) (Keys : path -> Prop) (Vals : tv -> Prop) (Q Qr : path)
+         (cq : cquery) (s : list item) (cfg : config) (ss : streams) (sched : list action),
+    (forall a b : path, Keys a -> Keys b -> strict_prefix a b = false) ->
+    (forall a : path, Keys a -> glob_free a = true) ->
+    (forall v : tv, Vals v -> to_scalar v <> None) ->
+    (forall a b : tv, Vals a -> Vals b -> tv_equal a b = true -> to_scalar a = to_scalar b) ->
+    Q = name :: Qr -> glob_free Q = true ->
+    (forall k : path, Keys k -> strict_prefix (name :: k) Q = false) ->
+    sub_query cq = Q -> g_target (cq_prefix cq) = name ->
+    complete_path (cq_prefix cq) (cq_path cq) = Some Qr ->
+    conforms name Keys Vals s ->
+    validate cfg = true -> NoDup (keys (cf_targets cfg)) ->
+    (forall n, In n (keys (cf_targets cfg)) -> is_glob n = false) ->
+    In name (keys (cf_targets cfg)) ->
+    NoDup (keys ss) -> assoc name ss = Some s ->
+    (forall n' l, In (n', l) ss -> Forall (item_nometa n') l) ->
+    exists l, pipeline cfg ss cq sched = VLeaves l /\
+              Permutation l (selects Q (stamp_paths name (replay s))).
+Proof. exact relay_multi. Qed.
+Print Assumptions C01_relay_faithful_partial.
+
+(** its hypotheses are satisfiable: two targets, keyed path, origin in a prefix,
+    decimal value, a suppressed update, a subtree delete, an interleaved
+    schedule; the resulting view has two leaves *)
+Theorem C01_relay_faithful_example :
+  exists l, pipeline RelayExample.cfg RelayExample.ss RelayExample.q RelayExample.sched = VLeaves l /\
+            Permutation l (selects ["dev1"] (stamp_paths "dev1" (replay RelayExample.s1))) /\
+            List.length l = 2%nat.
+Proof. exact RelayExample.example. Qed.
+Print Assumptions C01_relay_faithful_example.
+
+(** query flags, inline -proto and -proto_file build the same SubscribeRequest *)
+Theorem C01_cli_invocations_equivalent :
+  forall (parse : string -> option cli_req) (files : string -> option string)
+         (tgt : string) (qs : list string) (qt : string) (m : qmode) (txt fname : string) (r : cli_req),
+    query_type qt = Some m -> qs <> [] -> existsb has_bracket qs = false ->
+    r = {| cr_mode := m; cr_target := tgt;
+           cr_paths := map (fun s => query_to_path (parse_query s)) qs |} ->
+    txt <> "" -> fname <> "" -> parse txt = Some r -> files fname = Some txt ->
+    cli_request parse files
+      {| a_target := tgt; a_queries := qs; a_qtype := qt; a_proto := ""; a_proto_file := "" |} = CliReq r
+    /\ cli_request parse files
+      {| a_target := ""; a_queries := []; a_qtype := qt; a_proto := txt; a_proto_file := "" |} = CliReq r
+    /\ cli_request parse files
+      {| a_target := ""; a_queries := []; a_qtype := qt; a_proto := ""; a_proto_file := fname |} = CliReq r.
+Proof. exact cli_equivalent. Qed.
+Print Assumptions C01_cli_invocations_equivalent.
+
+(** every configured target is registered with the target manager (with its
+    own request, carrying its name) and with the cache *)
+Theorem C01_collector_registers_every_target :
+  forall c,
+    match collector_start c with
+    | Some (managed, cached) =>
+        validate c = true /\
+        keys managed = keys (cf_targets c) /\ cached = keys (cf_targets c) /\
+        forall name t, In (name, t) (cf_targets c) ->
+          exists r, assoc (t_request t) (cf_requests c) = Some r /\ In (name, customize name r) managed
+    | None => validate c = false
+    end.
+Proof. exact collector_start_spec. Qed.
+Print Assumptions C01_collector_registers_every_target.
 
 (** every notification leaves the collector's Update closure carrying the
     configured target name and a non-empty origin *)
@@ -9,3 +106,35 @@ Theorem C01_stamp_prefix :
     n_prefix (stamp name n) = Some pre /\ g_target pre = name /\ g_origin pre <> "".
 Proof. exact stamp_prefix. Qed.
 Print Assumptions C01_stamp_prefix.
+
+(** the executable checker applied to the implementation's observations is sound *)
+Theorem C01_kp_client_sound :
+  forall i c q l,
+    let name := g_target (cq_prefix q) in
+    configured c name = true -> hyp_stream (stream_of c name) = true ->
+    hyp_query name (sub_query q) (stream_of c name) = true ->
+    complete_path (cq_prefix q) (cq_path q) <> None ->
+    kp_client i c q (OView (VLeaves l)) = [] ->
+    Permutation (drop_meta l) (spec_view c name (sub_query q)).
+Proof. exact kp_client_sound. Qed.
+Print Assumptions C01_kp_client_sound.
+
+(** false of the faithful model outside the hypotheses (open findings, witnesses in corpus/C01) *)
+Theorem C01_relay_path_origin_refuted :
+  exists l, pipeline Refuted.cfg1 [("dev1", Refuted.s_origin)] RelayExample.q [] = VLeaves l /\
+            ~ Permutation l (selects ["dev1"] (stamp_paths "dev1" (replay Refuted.s_origin))).
+Proof. exact Refuted.path_origin_refuted. Qed.
+Print Assumptions C01_relay_path_origin_refuted.
+
+Theorem C01_relay_negative_zero_refuted :
+  exists l, pipeline Refuted.cfg1 [("dev1", Refuted.s_zero)] RelayExample.q
+              [AIngest "dev1"; ASubscribe; ASend; ASend] = VLeaves l /\
+            ~ Permutation l (selects ["dev1"] (stamp_paths "dev1" (replay Refuted.s_zero))).
+Proof. exact Refuted.negative_zero_refuted. Qed.
+Print Assumptions C01_relay_negative_zero_refuted.
+
+Theorem C01_relay_mixed_encoding_refuted :
+  exists l, pipeline Refuted.cfg1 [("dev1", Refuted.s_mixed)] RelayExample.q [ASubscribe] = VLeaves l /\
+            ~ Permutation l (selects ["dev1"] (stamp_paths "dev1" (replay Refuted.s_mixed))).
+Proof. exact Refuted.mixed_encoding_refuted. Qed.
+Print Assumptions C01_relay_mixed_encoding_refuted.
